@@ -42,8 +42,8 @@ def run_c18(ctx):
     cpath = ctx.path("crypto-cases.ndjson")
     open(cpath, "w").write("\n".join(cases) + "\n")
     tpath = ctx.path("crypto-trace.ndjson")
-    st = run_harness(ctx, hs, ["crypto", "in=" + cpath, "out=" + tpath, "seed=%d" % ctx.seed, "reps=%d" % (2 if q else 6),
-                               "allbits=%d" % (0 if q else 1), "nkeys=%d" % (30 if q else 300), "dir=" + ctx.work], timeout=3000)
+    st = run_harness(ctx, hs, ["crypto", "in=" + cpath, "out=" + tpath, "seed=%d" % ctx.seed, "reps=%d" % (6 if q else 40),
+                               "allbits=%d" % (0 if q else 1), "nkeys=%d" % (100 if q else 3000), "dir=" + ctx.work], timeout=3000)
     ctx.log("crypto: %s" % st)
     rep = validate_trace(ctx, tpath, "crypto", module="TraceCrypto.tla", base_constants={"MaxBatch": "5"}, timeout=1800)
     ctx.traces += 1
@@ -72,7 +72,7 @@ def run_c20(ctx):
     if "Assumption" in r["out"] and "is false" in r["out"]:
         ctx.violation("Digests.tla: the layout is not injective / kinds can coincide", "model", {"tlc_output_tail": r["out"][-3000:]})
     tpath = ctx.path("digest-trace.ndjson")
-    st = run_harness(ctx, hs, ["digests", "out=" + tpath, "seed=%d" % ctx.seed, "reps=%d" % (40 if q else 1500)], timeout=3000)
+    st = run_harness(ctx, hs, ["digests", "out=" + tpath, "seed=%d" % ctx.seed, "reps=%d" % (150 if q else 3000)], timeout=3000)
     ctx.log("digests: %s" % st)
     rep = validate_trace(ctx, tpath, "digests", module="TraceDigests.tla", base_constants={"MaxPayload": "1"}, timeout=1800)
     ctx.traces += 1
